@@ -222,7 +222,59 @@ def ext(s, ctx, func, g, tc, A, caller, ln, last):
         if last == 'strip_prefix': return some(Ref(Cell(Str(a[len(pt):]), 'rest'))) if a.startswith(pt) else none()
         if last == 'strip_suffix': return some(Ref(Cell(Str(a[:len(a) - len(pt)]), 'rest'))) if a.endswith(pt) else none()
         if last == 'eq_ignore_ascii_case': return a.lower() == pt.lower()
+        if last == 'chars': return IterM([ord(c) for c in a])
+        if last == 'bytes': return IterM(list(a.encode('utf-8')))
+        if last == 'split': return IterM([Ref(Cell(Str(x), 'piece')) for x in a.split(pt)])
+        if last == 'to_owned': return Str(a)
         raise Unsupported('string method ' + last)
+    if tc and tc[1] == 'Default' and tc[2] == 'default':
+        t = tc[0]
+        if _ity(tc[3]): return 0
+        if t == 'bool': return False
+        if t in ('f64', 'f32'): return z3.RealVal(0)
+        if t == 'Option': return none()
+        if t == 'String': return Str('')
+        if t in ('Vec', 'VecDeque'): return SeqM(kind=t)
+        if t in ('HashMap', 'HashSet'): return MapM(kind=t)
+        if t == 'tuple' and tc[3].strip() == '()': return unit()
+    m2 = re.search(r'<impl (u8|u16|u32|u64|usize)>::(count_ones|count_zeros|leading_zeros|trailing_zeros|next_power_of_two|ilog2|swap_bytes|reverse_bits|rotate_left|rotate_right)$', g)
+    if m2:
+        v = simp(A[0]) if is_z3(A[0]) else A[0]
+        if is_z3(v) and z3.is_int_value(v): v = v.as_long()
+        if not is_conc(v): raise Unsupported(m2.group(2) + ' of a symbolic value')
+        bits = {'u8': 8, 'u16': 16, 'u32': 32}.get(m2.group(1), 64); k = m2.group(2)
+        if k == 'count_ones': return bin(v).count('1')
+        if k == 'count_zeros': return bits - bin(v).count('1')
+        if k == 'leading_zeros': return bits - v.bit_length()
+        if k == 'trailing_zeros': return bits if v == 0 else (v & -v).bit_length() - 1
+        if k == 'ilog2':
+            if v == 0: raise Panic('argument of integer logarithm must be positive', 'arith')
+            return v.bit_length() - 1
+        if k == 'next_power_of_two':
+            r = 1 if v <= 1 else 1 << (v - 1).bit_length()
+            if r >= 1 << bits: raise Panic('attempt to add with overflow (next_power_of_two)', 'arith')
+            return r
+        raise Unsupported(k)
+    if re.search(r'Duration::(subsec_millis|subsec_micros|subsec_nanos|as_micros)$', g):
+        t = deref_all(A[0]).t
+        if last == 'as_micros': return B._div_const(ctx, t, 1000)
+        sub = t - B._div_const(ctx, t, B.NS) * B.NS
+        return sub if last == 'subsec_nanos' else B._div_const(ctx, sub, 1000000 if last == 'subsec_millis' else 1000)
+    m2 = re.search(r'<impl char>::(is_ascii_digit|is_ascii_alphabetic|is_ascii_alphanumeric|is_alphabetic|is_numeric|is_whitespace|is_ascii_uppercase|is_ascii_lowercase|to_ascii_uppercase|to_ascii_lowercase|is_ascii|len_utf8)$', g)
+    if m2:
+        v = deref_all(A[0]); v = simp(v) if is_z3(v) else v
+        if is_z3(v) and z3.is_int_value(v): v = v.as_long()
+        if not is_conc(v): raise Unsupported('char method on a symbolic character')
+        ch = chr(v); k = m2.group(1)
+        return {'is_ascii_digit': ch.isdigit() and ch.isascii(), 'is_ascii_alphabetic': ch.isalpha() and ch.isascii(), 'is_ascii_alphanumeric': ch.isalnum() and ch.isascii(), 'is_alphabetic': ch.isalpha(),
+                'is_numeric': ch.isnumeric(), 'is_whitespace': ch.isspace(), 'is_ascii_uppercase': ch.isupper() and ch.isascii(), 'is_ascii_lowercase': ch.islower() and ch.isascii(),
+                'to_ascii_uppercase': ord(ch.upper()) if ch.isascii() else v, 'to_ascii_lowercase': ord(ch.lower()) if ch.isascii() else v, 'is_ascii': ch.isascii(), 'len_utf8': len(ch.encode('utf-8'))}[k]
+    if re.search(r'<impl str>::(to_ascii_uppercase|to_ascii_lowercase|to_uppercase|to_lowercase|to_string|len|is_empty)$', g) and isinstance(deref_all(A[0]), Str) and not isinstance(deref_all(A[0]).t, str):
+        a = render_concrete(deref_all(A[0]))
+        if a is not None:
+            if last in ('len',): return len(a.encode('utf-8'))
+            if last == 'is_empty': return a == ''
+            return Str(a.upper() if 'upper' in last else (a.lower() if 'lower' in last else a))
     if tc and tc[1] == 'ToString' and tc[2] == 'to_string':
         v = deref_all(A[0])
         if isinstance(v, Str): return v
@@ -230,6 +282,16 @@ def ext(s, ctx, func, g, tc, A, caller, ln, last):
         raise Unsupported('to_string of ' + type(v).__name__)
     if tc and tc[0] == 'String' and tc[1] == 'Add' and tc[2] == 'add':
         return Str(('concat', [deref_all(A[0]), deref_all(A[1])]))
+    # ------------------------------------------------------------ calls through `dyn Trait` of a trait defined in the analysed crates
+    if tc and tc[3].strip().startswith('dyn ') and A:
+        recv = deref_all(A[0])
+        if isinstance(recv, Agg) and recv.ty == 'Box' and recv.fields: recv = deref_all(recv.fields[0])
+        tyn = recv.ty if isinstance(recv, Agg) else None
+        if tyn:
+            c = [f for f in s.p.methods.get((tyn, tc[2]), [])]
+            if len(c) == 1: r = yield from s.call_fn(ctx, c[0], list(A)); return r
+            dflt = [f for n_, f in s.p.fns.items() if n_.endswith('::' + tc[1] + '::' + tc[2])]
+            if len(dflt) == 1: r = yield from s.call_fn(ctx, dflt[0], list(A)); return r
     # ------------------------------------------------------------ Option
     if E('Option::map_or_else') or E('Result::map_or_else'):
         o = A[0]; good = 1 if 'Option' in g else 0
@@ -409,6 +471,16 @@ def ext(s, ctx, func, g, tc, A, caller, ln, last):
                     # std: min / min_by keep the first of equal minima, max / max_by the last of equal maxima
                     if (m.startswith('min') and c > 0) or (m.startswith('max') and c <= 0): best = x
                 return some(best) if best is not None else none()
+            if m in ('eq', 'cmp'):
+                o = deref_all(A[1])
+                other = (yield from B._iter_items(s, ctx, o)) if isinstance(o, IterM) else (list(o.items) if isinstance(o, SeqM) else list(o.fields))
+                if m == 'eq':
+                    if len(items) != len(other): return False
+                    return simp(z3.And(*[z3.BoolVal(c) if isinstance(c, bool) else c for c in [term_eq(x, y) for x, y in zip(items, other)]])) if items else True
+                for x, y in zip(items, other):
+                    c = _cmp(ctx, x, y)
+                    if c != 0: return _ordering(c)
+                return _ordering(-1 if len(items) < len(other) else (0 if len(items) == len(other) else 1))
             if m == 'product':
                 acc = 1
                 for x in items: acc = _arith(s, ctx, 'Mul', acc, x, 'u64')
